@@ -161,7 +161,7 @@ Section FirstLineSegment.
         match t with
         | [] => Some (S i, true)
         | nx :: _ =>
-            if first && hasbreak c then Some (1%nat, true)
+            if first && hasbreak c then Some (S i, true)
             else if hasbreak nx then Some (S (S i), true)
             else match pairbrk c nx with
                  | None => None
@@ -209,9 +209,11 @@ Definition go_isspace (r : Z) : bool :=
   in_range r 9 13 || (r =? 32) || (r =? 133) || (r =? 160) || (r =? 5760) || in_range r 8192 8202
   || (r =? 8232) || (r =? 8233) || (r =? 8239) || (r =? 8287) || (r =? 12288).
 
-(* uniseg line-break classes BK, CR, LF, NL (HasTrailingLineBreak) *)
-Definition uniseg_isbrk (r : Z) : bool :=
-  in_range r 10 13 || (r =? 133) || (r =? 8232) || (r =? 8233).
+(* uniseg.HasTrailingLineBreak as it behaves in the pinned uniseg v0.4.4: it compares the
+   line-break property of the last rune with parser-state constants, which singles out LF and
+   CR only (VT, FF, NEL, LS, PS are reported as mustBreak by FirstLineSegment but not here;
+   the harness checks this table against the library on every cell of every case) *)
+Definition uniseg_isbrk (r : Z) : bool := (r =? 10) || (r =? 13).
 
 (* utf8.DecodeLastRune of an empty string is RuneError *)
 Definition last_rune (c : cell) : Z := last (c_runes c) 65533.
@@ -322,39 +324,37 @@ Definition nosplit_cut_b (is_space : cell -> bool) (B : nat -> bool) (W : Z) (in
 Definition nosplit_b is_space B W input (obs : list (list cell * nat)) : bool :=
   forallb (nosplit_cut_b is_space B W input) (cuts_of (length input) obs).
 
-(* a hard line break ends the line: the position after every cell with a trailing line break is a cut *)
-Fixpoint hardbreak_from (hasbreak : cell -> bool) (p : nat) (input : list cell) (cuts : list nat) : bool :=
-  match input with
-  | [] => true
-  | c :: t => (if hasbreak c then existsb (Nat.eqb (S p)) cuts else true) && hardbreak_from hasbreak (S p) t cuts
-  end.
-Definition hardbreak_b hasbreak (input : list cell) (obs : list (list cell * nat)) : bool :=
-  hardbreak_from hasbreak 0 input (cuts_of (length input) obs).
+(* a hard line break ends the line: every position after which the text must break is a cut *)
+Definition hardbreak_b (Hd : nat -> bool) (N : nat) (obs : list (list cell * nat)) : bool :=
+  let cuts := cuts_of N obs in
+  forallb (fun e => negb (Hd e) || existsb (Nat.eqb e) cuts) (seq 1 N).
 
 (* the whole property on one observation (W = 0: Scan refuses, nothing is emitted) *)
-Definition c16_ok_b is_space hasbreak (same : list cell -> list cell -> bool) B (W : Z) (input : list cell) (obs : list (list cell * nat)) : bool :=
+Definition c16_ok_b is_space (same : list cell -> list cell -> bool) (B Hd : nat -> bool) (W : Z) (input : list cell) (obs : list (list cell * nat)) : bool :=
   let N := length input in
   progress_b N W obs &&
   forallb (fun x => fits_b is_space W (fst x)) obs &&
   ((W =? 0) ||
-   (conserve_b same input N 0 obs && nosplit_b is_space B W input obs && hardbreak_b hasbreak input obs)).
+   (conserve_b same input N 0 obs && nosplit_b is_space B W input obs && hardbreak_b Hd N obs)).
 
 (* ---------- break opportunities, from the oracle alone ---------- *)
 
 (* plain: the segment ends met when FirstLineSegment is threaded from (0,-1) *)
-Fixpoint plain_breaks (fuel : nat) (orc : Z -> Z -> option (Z * bool * Z)) (N i st : Z) : option (list Z) :=
+Fixpoint plain_breaks (fuel : nat) (orc : Z -> Z -> option (Z * bool * Z)) (N i st : Z) : option (list (Z * bool)) :=
   match fuel with
   | O => None
   | S f =>
       if N <=? i then Some []
       else match orc i st with
            | None => None
-           | Some (n, _, st') =>
-               if 0 <? n then option_map (cons (i + n)) (plain_breaks f orc N (i + n) st') else None
+           | Some (n, br, st') =>
+               if 0 <? n then option_map (cons (i + n, br)) (plain_breaks f orc N (i + n) st') else None
            end
   end.
 
-Definition B_of_list (l : list Z) (p : nat) : bool := existsb (Z.eqb (Z.of_nat p)) l.
+Definition B_of_list (l : list (Z * bool)) (p : nat) : bool := existsb (fun x => Z.eqb (Z.of_nat p) (fst x)) l.
+(* positions where FirstLineSegment reported mustBreak *)
+Definition Hd_of_list (l : list (Z * bool)) (p : nat) : bool := existsb (fun x => Z.eqb (Z.of_nat p) (fst x) && snd x) l.
 
 (* rich: position p (0 < p < N) is a segment end iff the cell before ends with a line break,
    or the pair around p may be broken and the cell after is not a line break *)
@@ -366,6 +366,13 @@ Definition rich_B (hasbreak : cell -> bool) (pairbrk : cell -> cell -> option bo
                hasbreak a || (negb (hasbreak b) && match pairbrk a b with Some true => true | _ => false end)
            | _, _ => false
            end
+  end.
+
+(* rich: the text must break after a cell that ends with a line break *)
+Definition rich_Hd (hasbreak : cell -> bool) (input : list cell) (p : nat) : bool :=
+  match p with
+  | O => false
+  | S q => match nth_error input q with Some a => hasbreak a | None => false end
   end.
 
 (* ---------- correspondence ---------- *)
@@ -416,7 +423,7 @@ Definition plain_case_violation (k : plain_case) : bool :=
   | Some bl =>
       existsb (fun r : run_t => let '(W, obs, code) := r in
                  negb ((code =? 0) && obs_nonneg obs &&
-                       c16_ok_b cell_is_space cell_hasbreak same_runes (B_of_list bl) W input (to_obs obs))) runs
+                       c16_ok_b cell_is_space same_runes (B_of_list bl) (Hd_of_list bl) W input (to_obs obs))) runs
   end.
 
 Definition c16_plain_mismatches (cases : list plain_case) : list Z := bad_indices plain_case_mismatch cases.
@@ -437,9 +444,10 @@ Definition rich_case_mismatch (k : rich_case) : bool :=
 Definition rich_case_violation (k : rich_case) : bool :=
   let '(input, tbl, (sp, bk), runs) := k in
   let B := rich_B cell_hasbreak (tbl_pairbrk tbl) input in
+  let Hd := rich_Hd cell_hasbreak input in
   existsb (fun r : run_t => let '(W, obs, code) := r in
              negb ((code =? 0) && obs_nonneg obs &&
-                   c16_ok_b cell_is_space cell_hasbreak (same_cells cell_is_space) B W input (to_obs obs))) runs.
+                   c16_ok_b cell_is_space (same_cells cell_is_space) B Hd W input (to_obs obs))) runs.
 
 Definition c16_rich_mismatches (cases : list rich_case) : list Z := bad_indices rich_case_mismatch cases.
 Definition c16_rich_violations (cases : list rich_case) : list Z := bad_indices rich_case_violation cases.
